@@ -1,5 +1,305 @@
-From Coq Require Import ZArith List.
-From Verif.Model Require Import Result Lexer Parser Eval.
+(* Props/C03.v -- formula strings evaluate to the value mathematics assigns them.
+   Only statements, `exact lemma`, Print Assumptions and Examples.  All theorems are about the executable
+   model (Model/Lexer.v, Model/Parser.v, Model/Eval.v), which is tied to MathParser / evaluator() by the
+   differential correspondence of harness/props/c03.py on every run, and to the declarative tables of the
+   source by Gen/EvalTables.v + Bridge/EvalTables.v. *)
+From Coq Require Import ZArith QArith List Bool.
+From Verif.Model Require Import Result Lexer Parser Eval EvalSpec ParserGrammar EvalTables.
+From Verif.Gen Require EvalTables.
 From Verif.Bridge Require Import EvalTables.
-Theorem C03_placeholder : True.
-Proof. exact I. Qed.
+From Verif.Proofs Require Import ParserRoundTrip EvalFlatten ParserSound ParserReject EvalFrontDoor.
+Import ListNotations.
+
+(* ---- the grammar assigns the documented structure ------------------------------------------------
+   For EVERY derivation e of the documented grammar (any size, any nesting): parsing its rendering -- which
+   contains only the parentheses that the documented precedence and associativity require, plus the explicit
+   redundant ones of e -- yields exactly flatten e: '^' tightest and right-associative with an optional sign
+   on the exponent, then unary minus, then '||', then '*' '/' (left), then '+' '-' (left). *)
+Theorem C03_parse_render : forall e, wf_expr e = true -> parse_tokens (render e) = Some (flatten e).
+Proof. exact parse_render. Qed.
+Print Assumptions C03_parse_render.
+
+(* the parser is a left inverse of printing on every tree the grammar can produce *)
+Theorem C03_parse_print : forall t, wfb t = true -> parse_tokens (print t) = Some t.
+Proof. exact parse_print. Qed.
+Print Assumptions C03_parse_print.
+
+(* ---- evaluating the flat tree gives the documented recursive semantics ----------------------------
+   (same successful values; only which of two errors is reported first may differ) *)
+Theorem C03_eval_flatten : forall E e v, wf_expr e = true ->
+  (eval E (flatten e) = Ok v <-> denote E e = Ok v).
+Proof. exact (fun E e v H => eval_flatten E e H v). Qed.
+Print Assumptions C03_eval_flatten.
+
+Theorem C03_eval_parse_render : forall E e v, wf_expr e = true ->
+  ((exists t, parse_tokens (render e) = Some t /\ eval E t = Ok v) <-> denote E e = Ok v).
+Proof. exact eval_parse_render. Qed.
+Print Assumptions C03_eval_parse_render.
+
+(* redundant parentheses do not change the value *)
+Theorem C03_redundant_parentheses : forall E e, denote E (strip_parens e) = denote E e.
+Proof. exact denote_strip_parens. Qed.
+Print Assumptions C03_redundant_parentheses.
+
+(* ---- the accepted token lists are exactly the prints of well-formed trees (no ambiguity) --------- *)
+Theorem C03_parse_tokens_iff : forall ts t, parse_tokens ts = Some t <-> (ts = print t /\ wfb t = true).
+Proof. exact parse_tokens_iff. Qed.
+Print Assumptions C03_parse_tokens_iff.
+
+(* ---- spaces anywhere; blank input; the front door ------------------------------------------------ *)
+Theorem C03_spaces_irrelevant : forall E md s s',
+  strip_spaces s = strip_spaces s' -> evaluator E md (Some s) = evaluator E md (Some s').
+Proof. exact evaluator_spaces. Qed.
+Print Assumptions C03_spaces_irrelevant.
+
+Theorem C03_insert_spaces_anywhere : forall a b n,
+  parse_formula (a ++ repeat ch_space n ++ b) = parse_formula (a ++ b).
+Proof. exact parse_formula_insert_spaces. Qed.
+Print Assumptions C03_insert_spaces_anywhere.
+
+Theorem C03_redundant_parens_tokens : forall E ts t, parse_tokens ts = Some t ->
+  parse_tokens (TLP :: ts ++ [TRP]) = Some (Paren t) /\ eval E (Paren t) = eval E t.
+Proof. exact redundant_parens_tokens. Qed.
+Print Assumptions C03_redundant_parens_tokens.
+
+Theorem C03_front_door_none : forall E md, evaluator E md None = ONan.
+Proof. exact evaluator_none. Qed.
+Print Assumptions C03_front_door_none.
+
+Theorem C03_front_door_blank : forall E md s, forallb is_pyspace s = true -> evaluator E md (Some s) = ONan.
+Proof. exact evaluator_blank. Qed.
+Print Assumptions C03_front_door_blank.
+
+Theorem C03_front_door_max_array_dim : forall E d s c r t v,
+  py_strip s = c :: r -> parse_formula (c :: r) = PTree t -> check_scope E t = None -> eval E t = Ok v ->
+  evaluator E (Some d) (Some s) = if (d <? max_dim_used E t)%nat then OParseError PETooManyDims else OVal v.
+Proof. exact evaluator_max_array_dim. Qed.
+Print Assumptions C03_front_door_max_array_dim.
+
+Theorem C03_front_door_unparsable : forall E md s c r,
+  py_strip s = c :: r -> parse_formula (c :: r) = PUnparsable -> evaluator E md (Some s) = OParseError PEUnparsable.
+Proof. exact evaluator_unparsable. Qed.
+Print Assumptions C03_front_door_unparsable.
+
+(* ---- names resolve exactly (case-sensitively); numbers and suffixes ------------------------------- *)
+Theorem C03_undefined_variable_rejected : forall E t n,
+  In n (vars_of t) -> venv E n = None -> check_scope E t = Some EUndefVar.
+Proof. exact undefined_variable_rejected. Qed.
+Print Assumptions C03_undefined_variable_rejected.
+
+Theorem C03_undefined_function_rejected : forall E t n,
+  forallb (defined (venv E)) (vars_of t) = true ->
+  In n (funcs_of t) -> fenv E n = None -> check_scope E t = Some EUndefFun.
+Proof. exact undefined_function_rejected. Qed.
+Print Assumptions C03_undefined_function_rejected.
+
+Theorem C03_names_case_sensitive : forall (A : Type) (l : list (str * A)) m n v,
+  m <> n -> assoc ((m, v) :: l) n = assoc l n.
+Proof. exact assoc_other_name. Qed.
+Print Assumptions C03_names_case_sensitive.
+
+Theorem C03_suffix_scaling : forall E x u q m,
+  numeral_value x = Some q -> senv E u = Some m -> cfinite (creal (Qred (q * m))) = true ->
+  eval E (Num x (Some u)) = Ok (VS (creal (Qred (q * m)))).
+Proof. exact suffix_scaling. Qed.
+Print Assumptions C03_suffix_scaling.
+
+(* ---- strings outside the grammar are rejected (token lists of ANY length) --------------------------- *)
+Theorem C03_accepted_tokens_ok : forall ts t, parse_tokens ts = Some t -> tokens_ok ts = true.
+Proof. exact accepted_tokens_ok. Qed.
+Print Assumptions C03_accepted_tokens_ok.
+
+Theorem C03_reject_double_binop : forall ts1 ts2 o1 o2,
+  is_binop o1 = true -> is_binop o2 = true -> o2 <> TMinus -> (o1, o2) <> (TPipe, TPipe) ->
+  parse_tokens (ts1 ++ o1 :: o2 :: ts2) = None.
+Proof. exact reject_double_binop. Qed.
+Print Assumptions C03_reject_double_binop.
+
+Theorem C03_reject_trailing_op : forall ts o, is_binop o = true -> parse_tokens (ts ++ [o]) = None.
+Proof. exact reject_trailing_op. Qed.
+Print Assumptions C03_reject_trailing_op.
+
+Theorem C03_reject_leading_binop : forall ts o, is_binop o = true -> o <> TMinus -> o <> TPlus ->
+  parse_tokens (o :: ts) = None.
+Proof. exact reject_leading_binop. Qed.
+Print Assumptions C03_reject_leading_binop.
+
+Theorem C03_reject_juxtaposition : forall ts1 ts2 a b,
+  operand_end a = true -> atom_start b = true -> (forall n, (a, b) <> (TName n, TLP)) ->
+  parse_tokens (ts1 ++ a :: b :: ts2) = None.
+Proof. exact reject_juxtaposition. Qed.
+Print Assumptions C03_reject_juxtaposition.
+
+Theorem C03_reject_empty_parens : forall ts1 ts2, parse_tokens (ts1 ++ TLP :: TRP :: ts2) = None.
+Proof. exact reject_empty_parens. Qed.
+Print Assumptions C03_reject_empty_parens.
+
+Theorem C03_reject_empty_array : forall ts1 ts2, parse_tokens (ts1 ++ TLB :: TRB :: ts2) = None.
+Proof. exact reject_empty_array. Qed.
+Print Assumptions C03_reject_empty_array.
+
+Theorem C03_reject_empty_args : forall ts1 ts2 a b,
+  (a, b) = (TLP, TComma) \/ (a, b) = (TLB, TComma) \/ (a, b) = (TComma, TComma)
+  \/ (a, b) = (TComma, TRP) \/ (a, b) = (TComma, TRB) ->
+  parse_tokens (ts1 ++ a :: b :: ts2) = None.
+Proof. exact reject_empty_args. Qed.
+Print Assumptions C03_reject_empty_args.
+
+Theorem C03_reject_double_sign : forall ts, parse_tokens (TMinus :: TMinus :: ts) = None.
+Proof. exact reject_double_sign_leading. Qed.
+Print Assumptions C03_reject_double_sign.
+
+Theorem C03_reject_empty_input : parse_tokens [] = None.
+Proof. exact reject_empty. Qed.
+Print Assumptions C03_reject_empty_input.
+
+(* ---- tie A: the grammar regenerated from the source has the documented precedence chain ------------ *)
+Theorem C03_precedence_chain_of_source :
+  precedence_chain Gen.EvalTables.gen_grammar = documented_levels.
+Proof. exact precedence_chain_bridge. Qed.
+Print Assumptions C03_precedence_chain_of_source.
+
+(* ---- non-vacuity: concrete strings through the whole model (lexer, parser, evaluator) ------------ *)
+From Verif.Proofs Require Import EvalExamples.
+(* -2^2 *)
+Example C03_ex_neg_pow : value_of [45;50;94;50]%Z = Some ((-4)#1, 0).
+Proof. exact ex_neg_pow. Qed.
+(* 2^-2^2 *)
+Example C03_ex_pow_right_assoc_signed : value_of [50;94;45;50;94;50]%Z = Some (1#16, 0).
+Proof. exact ex_pow_right_assoc_signed. Qed.
+(* 2^3^2 *)
+Example C03_ex_pow_right_assoc : value_of [50;94;51;94;50]%Z = Some (512#1, 0).
+Proof. exact ex_pow_right_assoc. Qed.
+(* 8/4*2 *)
+Example C03_ex_product_left_assoc : value_of [56;47;52;42;50]%Z = Some (4#1, 0).
+Proof. exact ex_product_left_assoc. Qed.
+(* 10-4-3 *)
+Example C03_ex_sum_left_assoc : value_of [49;48;45;52;45;51]%Z = Some (3#1, 0).
+Proof. exact ex_sum_left_assoc. Qed.
+(* 1--1 *)
+Example C03_ex_minus_minus : value_of [49;45;45;49]%Z = Some (2#1, 0).
+Proof. exact ex_minus_minus. Qed.
+(* 2*-3^2 *)
+Example C03_ex_times_neg_pow : value_of [50;42;45;51;94;50]%Z = Some ((-18)#1, 0).
+Proof. exact ex_times_neg_pow. Qed.
+(* 3*2||2 *)
+Example C03_ex_parallel_binds_tighter_than_product : value_of [51;42;50;124;124;50]%Z = Some (3#1, 0).
+Proof. exact ex_parallel_binds_tighter_than_product. Qed.
+(* 4||-2 *)
+Example C03_ex_parallel_weaker_than_negation : value_of [52;124;124;45;50]%Z = Some ((-4)#1, 0).
+Proof. exact ex_parallel_weaker_than_negation. Qed.
+(* 0||5 *)
+Example C03_ex_parallel_zero : value_of [48;124;124;53]%Z = Some (0#1, 0).
+Proof. exact ex_parallel_zero. Qed.
+(* (1+2)*3 *)
+Example C03_ex_parens_override : value_of [40;49;43;50;41;42;51]%Z = Some (9#1, 0).
+Proof. exact ex_parens_override. Qed.
+(* 7\u20142 *)
+Example C03_ex_emdash_is_minus : value_of [55;8212;50]%Z = Some (5#1, 0).
+Proof. exact ex_emdash_is_minus. Qed.
+(*  1 0 +\t2\n *)
+Example C03_ex_spaces_tabs : value_of [32;49;32;48;32;43;9;50;10]%Z = Some (12#1, 0).
+Proof. exact ex_spaces_tabs. Qed.
+(* 1.5e-1+2E1+.5+5. *)
+Example C03_ex_scientific : value_of [49;46;53;101;45;49;43;50;69;49;43;46;53;43;53;46]%Z = Some (513#20, 0).
+Proof. exact ex_scientific. Qed.
+(* 50% *)
+Example C03_ex_percent : value_of [53;48;37]%Z = Some (1#2, 0).
+Proof. exact ex_percent. Qed.
+(* 2k+3m *)
+Example C03_ex_metric : value_of [50;107;43;51;109]%Z = Some (2000003#1000, 0).
+Proof. exact ex_metric. Qed.
+(* x+X *)
+Example C03_ex_names_case : value_of [120;43;88]%Z = Some (8#1, 0).
+Proof. exact ex_names_case. Qed.
+(* i^2 *)
+Example C03_ex_complex_unit : value_of [105;94;50]%Z = Some ((-1)#1, 0).
+Proof. exact ex_complex_unit. Qed.
+(* z*z *)
+Example C03_ex_complex_binding : value_of [122;42;122]%Z = Some ((-3)#1, 4#1).
+Proof. exact ex_complex_binding. Qed.
+(* f(x,2) *)
+Example C03_ex_function_call : value_of [102;40;120;44;50;41]%Z = Some (7#1, 0).
+Proof. exact ex_function_call. Qed.
+(* T_{1}^{2}'+1 *)
+Example C03_ex_tensor_name : value_of [84;95;123;49;125;94;123;50;125;39;43;49]%Z = Some (10#1, 0).
+Proof. exact ex_tensor_name. Qed.
+(* 1++2 *)
+Example C03_ex_rejected_0 : rejected [49;43;43;50]%Z = true.
+Proof. exact ex_rejected_0. Qed.
+(* 1**2 *)
+Example C03_ex_rejected_1 : rejected [49;42;42;50]%Z = true.
+Proof. exact ex_rejected_1. Qed.
+(* 2(3) *)
+Example C03_ex_rejected_2 : rejected [50;40;51;41]%Z = true.
+Proof. exact ex_rejected_2. Qed.
+(* (2)(3) *)
+Example C03_ex_rejected_3 : rejected [40;50;41;40;51;41]%Z = true.
+Proof. exact ex_rejected_3. Qed.
+(* x\ty *)
+Example C03_ex_rejected_4 : rejected [120;9;121]%Z = true.
+Proof. exact ex_rejected_4. Qed.
+(* () *)
+Example C03_ex_rejected_5 : rejected [40;41]%Z = true.
+Proof. exact ex_rejected_5. Qed.
+(* f() *)
+Example C03_ex_rejected_6 : rejected [102;40;41]%Z = true.
+Proof. exact ex_rejected_6. Qed.
+(* f(1,) *)
+Example C03_ex_rejected_7 : rejected [102;40;49;44;41]%Z = true.
+Proof. exact ex_rejected_7. Qed.
+(* [1,,2] *)
+Example C03_ex_rejected_8 : rejected [91;49;44;44;50;93]%Z = true.
+Proof. exact ex_rejected_8. Qed.
+(* 1+ *)
+Example C03_ex_rejected_9 : rejected [49;43]%Z = true.
+Proof. exact ex_rejected_9. Qed.
+(* *1 *)
+Example C03_ex_rejected_10 : rejected [42;49]%Z = true.
+Proof. exact ex_rejected_10. Qed.
+(* --1 *)
+Example C03_ex_rejected_11 : rejected [45;45;49]%Z = true.
+Proof. exact ex_rejected_11. Qed.
+(* 2^--2 *)
+Example C03_ex_rejected_12 : rejected [50;94;45;45;50]%Z = true.
+Proof. exact ex_rejected_12. Qed.
+(* 1#2 *)
+Example C03_ex_rejected_13 : rejected [49;35;50]%Z = true.
+Proof. exact ex_rejected_13. Qed.
+(* 1 $ *)
+Example C03_ex_rejected_14 : rejected [49;32;36]%Z = true.
+Proof. exact ex_rejected_14. Qed.
+(* (1 *)
+Example C03_ex_rejected_15 : rejected [40;49]%Z = true.
+Proof. exact ex_rejected_15. Qed.
+(* 1) *)
+Example C03_ex_rejected_16 : rejected [49;41]%Z = true.
+Proof. exact ex_rejected_16. Qed.
+(* (1] *)
+Example C03_ex_rejected_17 : rejected [40;49;93]%Z = true.
+Proof. exact ex_rejected_17. Qed.
+(* x_{1 *)
+Example C03_ex_rejected_18 : rejected [120;95;123;49]%Z = true.
+Proof. exact ex_rejected_18. Qed.
+(* 1|2 *)
+Example C03_ex_rejected_19 : rejected [49;124;50]%Z = true.
+Proof. exact ex_rejected_19. Qed.
+(* 2\t3 *)
+Example C03_ex_rejected_20 : rejected [50;9;51]%Z = true.
+Proof. exact ex_rejected_20. Qed.
+(* 1.2.3 *)
+Example C03_ex_rejected_21 : rejected [49;46;50;46;51]%Z = true.
+Proof. exact ex_rejected_21. Qed.
+(* \xd72 *)
+Example C03_ex_rejected_22 : rejected [215;50]%Z = true.
+Proof. exact ex_rejected_22. Qed.
+Example C03_ex_case_undefined : evaluator ex_env None (Some [90;43;49]%Z) = OError EUndefVar.
+Proof. exact ex_case_undefined. Qed.
+Example C03_ex_blank_is_nan : evaluator ex_env None (Some [32;9;32]%Z) = ONan.
+Proof. exact ex_blank_is_nan. Qed.
+Example C03_ex_matrix_forbidden : evaluator ex_env (Some 1%nat) (Some [91;91;49;44;50;93;44;91;51;44;52;93;93]%Z) = OParseError PETooManyDims.
+Proof. exact ex_matrix_forbidden. Qed.
+Example C03_ex_division_by_zero : evaluator ex_env None (Some [49;47;40;120;45;51;41]%Z) = OError EDivZero.
+Proof. exact ex_division_by_zero. Qed.
+Example C03_ex_render : wf_expr ex_expr = true /\ print_tokens (render ex_expr) = [50;42;45;120;94;45;50;94;51;45;52;124;124;40;49;43;51;41]%Z.
+Proof. exact ex_render. Qed.
